@@ -373,7 +373,7 @@ class TlsHandshakeHello(TlsHandshakeMessage):
         raise NotImplementedError()
 
 
-class TlsCipherSuiteVector(VectorParsable):
+class TlsCipherSuiteVector(VectorEnumCodeNumeric):
     @classmethod
     def get_param(cls):
         return VectorParamEnumCodeNumeric(
